@@ -304,7 +304,7 @@ func deltaOK(p protocol.Protocol, d map[string]interface{}) string {
 }
 
 func checkC14(c *hx.Ctx) {
-	c.Rule("valid batch file sets produced by the REAL OperationHandler (all type mixes) are decoded and mutated: structural (entries dropped / duplicated / retargeted between roles, nulls, type confusion, counts skewed between every pair of files, references removed or added), byte-level on compressed and on decompressed-recompressed content, count skews by one on every batch shape (update-free batches included), multi-member gzip files (padding member past the decompressed limit, second document, trailing bytes), exact size attacks (stored-block gzip of exactly limit / limit+1 bytes; decompressed size exactly limit*factor / +1; compression bombs), CAS URI length at / past the limit, arbitrary anchor strings, primary CAS read failures with 0-3 alternate sources; oracle: GetTxnOperations never panics; on success the number of operations equals the anchor count, suffixes are pairwise distinct, every returned operation passes the library's own batch-mode parse / ValidateDelta / signed-data parse and an independent delta predicate; inputs built to break a stated limit or consistency rule must be rejected and the ones exactly at a limit accepted; crash-isolated workers under ulimit -v; non-trivial = mutated file set; distinct = distinct (files, anchor) inputs")
+	c.Rule("valid batch file sets produced by the REAL OperationHandler (all type mixes) are decoded and mutated: structural (entries dropped / duplicated / retargeted between roles, nulls, type confusion, counts skewed between every pair of files, references removed or added), byte-level on compressed and on decompressed-recompressed content, count skews by one and superfluous (empty) proof files on every batch shape (update-free and update-only batches included), multi-member gzip files (padding member past the decompressed limit, second document, trailing bytes), exact size attacks (stored-block gzip of exactly limit / limit+1 bytes; decompressed size exactly limit*factor / +1; compression bombs), CAS URI length at / past the limit, arbitrary anchor strings, primary CAS read failures with 0-3 alternate sources; oracle: GetTxnOperations never panics; on success the number of operations equals the anchor count, suffixes are pairwise distinct, every returned operation passes the library's own batch-mode parse / ValidateDelta / signed-data parse and an independent delta predicate; inputs built to break a stated limit or consistency rule must be rejected and the ones exactly at a limit accepted; crash-isolated workers under ulimit -v; non-trivial = mutated file set; distinct = distinct (files, anchor) inputs")
 	pool := hx.NewPool(c, "provider", 16, 6*1024*1024, 60*time.Second)
 	defer pool.Close()
 	p := c14Proto()
@@ -682,6 +682,39 @@ func checkC14(c *hx.Ctx) {
 				return
 			}
 		}
+		// a proof file reference that the batch shape does not call for (no recover / deactivate -> no core proof file; no
+		// update -> no provisional proof file), pointing to a well-formed proof file without entries
+		for _, emptyProof := range []string{`{}`, `{"operations":{}}`, `{"operations":{"recover":[],"deactivate":[],"update":[]}}`} {
+			var tree interface{}
+			_ = json.Unmarshal([]byte(emptyProof), &tree)
+			if _, has := fs.Trees["core-proof"]; !has {
+				for _, dropOps := range []bool{false, true} {
+					n := fs.clone()
+					ci := obj(n.Trees["core-index"])
+					ci["coreProofFileUri"] = "uri-core-proof"
+					if dropOps {
+						if ops, ok := ci["operations"].(map[string]interface{}); ok && len(arr(ops, "create")) > 0 {
+							continue // the operations member carries the creates of this shape
+						}
+						delete(ci, "operations")
+					}
+					n.Trees["core-proof"], n.URI["core-proof"] = ref.CopyTree(tree), "uri-core-proof"
+					if !must(n, nil, fmt.Sprintf("superfluous-proof-reference-per-shape:core %s operations-member-dropped=%v %v", emptyProof, dropOps, shapes[bi]), false, nil) {
+						return
+					}
+				}
+			}
+			if _, has := fs.Trees["prov-proof"]; !has {
+				if _, hasPI := fs.Trees["prov-index"]; hasPI {
+					n := fs.clone()
+					obj(n.Trees["prov-index"])["provisionalProofFileUri"] = "uri-prov-proof"
+					n.Trees["prov-proof"], n.URI["prov-proof"] = ref.CopyTree(tree), "uri-prov-proof"
+					if !must(n, nil, fmt.Sprintf("superfluous-proof-reference-per-shape:provisional %s %v", emptyProof, shapes[bi]), false, nil) {
+						return
+					}
+				}
+			}
+		}
 	}
 	// ---------- multi-member gzip files: every conforming decoder inflates all members, so the decompressed-size rule and
 	// the JSON well-formedness rule apply to the concatenation
@@ -781,7 +814,7 @@ func checkC14(c *hx.Ctx) {
 	c.Set("worker_crashes", pool.Crashes)
 	for _, k := range []string{"must_true:valid-file-set", "must_true:file-size-at-limit", "must_false:file-size-past-limit", "must_true:decompressed-size-at-limit",
 		"must_false:decompressed-size-past-limit", "must_false:compression-bomb", "must_false:file-size-past-limit-from-alternate-source", "must_false:read-failure-no-alternate",
-		"must_false:inconsistent-file-set", "must_false:anchor-string", "must_false:count-skew-per-shape", "must_false:multi-member-gzip-past-decompressed-limit", "must_false:multi-member-gzip-two-documents", "outcome_ERR:structural", "outcome_OK:structural"} {
+		"must_false:inconsistent-file-set", "must_false:anchor-string", "must_false:count-skew-per-shape", "must_false:superfluous-proof-reference-per-shape", "must_false:multi-member-gzip-past-decompressed-limit", "must_false:multi-member-gzip-two-documents", "outcome_ERR:structural", "outcome_OK:structural"} {
 		c.Floor(k, 5)
 	}
 	c.Floor("must_true:read-failure-served-by-alternate-1", 4)
